@@ -20,7 +20,9 @@ CONSTANTS Protocol,      \* TRUE: the programs' ordering rule (see above); FALSE
           MaxDepth,      \* operations per behaviour (after the seeding deposit)
           Sample,        \* print one script out of Sample finished behaviours
           PriceMoves,    \* index / long token prices the market can move to
-          Rich           \* TRUE: the larger argument domain (simulation)
+          Rich,          \* TRUE: the larger argument domain (simulation)
+          GuardShares    \* TRUE: the C06 share / round-trip monitors are required only of liquidity operations that
+                         \* run on an up-to-date fee state (always the case under Protocol); FALSE: of all
 
 VARIABLES st,            \* the one state of Exchange.tla
           ci, px,        \* configuration (index), current prices
@@ -121,6 +123,13 @@ CloseBack(J) ==
   IN [reset |-> FALSE, op |-> "decrease", a |-> a, c |-> C, px |-> px, ok |-> r.ok, panic |-> FALSE,
       s0 |-> J.s1, s1 |-> Revert(J.s1, r), sp |-> r.s, rep |-> r.rep]
 
+(* pool_value prices PENDING borrowing fees at the current utilisation; a deposit / withdrawal changes the
+   utilisation and with it the fees of the time already passed.  The share statements of C06 therefore hold
+   for liquidity operations on a market whose fee state was just updated -- which is how the programs run them. *)
+Guarded(mons, J) ==
+  [k \in 1..Len(mons) |->
+     IF GuardShares /\ mons[k][1] \in {"C06.DepositShare", "C06.WithdrawShare"} /\ ~FeesUpdated(J.s0)
+     THEN <<mons[k][1], TRUE>> ELSE mons[k]]
 DesignMonitors(J, he, nl, dust1) ==
   LET preM == J.s0.m
       hm   == HistMonitors(TRUE, preM, he, xl.led, nl)
@@ -128,8 +137,8 @@ DesignMonitors(J, he, nl, dust1) ==
   IN [k \in 1..Len(hm) |-> IF k \in keep THEN hm[k] ELSE <<hm[k][1], TRUE>>]
      \o << <<"C08.Conserved(design)", C08ConservedDesign(J, he, xl.led, preM, nl)>>,
            <<"C08.ResidualBacked(design)", C08BackedDesign(nl, dust1, he.m, he.c, he.ps)>> >>
-     \o (IF IsLiqOp(J) THEN MarketMonitors(J) ELSE <<>>)
-     \o (IF J.op = "deposit" /\ J.ok /\ J.rep.minted > 0
+     \o (IF IsLiqOp(J) THEN Guarded(MarketMonitors(J), J) ELSE <<>>)
+     \o (IF J.op = "deposit" /\ J.ok /\ J.rep.minted > 0 /\ (GuardShares => FeesUpdated(J.s0))
          THEN LET w == LpBack(J) IN
               << <<"C06.RoundTripFunded", (LpRoundTripMonitors(J, w))[2][2]>>,
                  <<"C06.WithdrawShare(rt)", (MarketMonitors(w))[8][2]>> >>
